@@ -293,6 +293,29 @@ def calls_in(e):
             yield x
 
 
+def simplify(e):
+    """(&X)->f => X.f ; *(&X) => X  (arises when `&obj->field` is substituted
+    for a pointer parameter)."""
+    if isinstance(e, list):
+        return [simplify(x) for x in e]
+    if not isinstance(e, dict):
+        return e
+    out = {k: (simplify(v) if isinstance(v, (dict, list)) else v) for k, v in e.items()}
+    k = out.get('k')
+    if k == 'member' and out.get('arrow'):
+        b = out['base']
+        while isinstance(b, dict) and b.get('k') in ('load', 'cast') and 'e' in b and b.get('k') == 'load':
+            b = b['e']
+        if isinstance(b, dict) and b.get('k') == 'addr':
+            out['arrow'] = False
+            out['base'] = b['e']
+    elif k == 'deref':
+        b = out['e']
+        if isinstance(b, dict) and b.get('k') == 'addr':
+            return b['e']
+    return out
+
+
 def subst(e, fn):
     """Rebuild an expression bottom-up; fn(node) may return a replacement."""
     if isinstance(e, list):
@@ -397,9 +420,9 @@ class Func:
         self.exit = d.get('exit')
         self.inlined_from = None
         for b in d.get('blocks', []):
-            evs = _normalise_events(b['events'])
+            evs = _normalise_events(simplify(b['events']))
             self.blocks[b['id']] = Block(b['id'], evs, [s for s in b['succ']],
-                                         b.get('term'), b.get('noreturn', False))
+                                         simplify(b.get('term')), b.get('noreturn', False))
         self._finish()
 
     def _finish(self):
@@ -920,6 +943,21 @@ class Inliner:
                 return ts if ts else None
         return None
 
+    def _fold_slot_test(self, cond):
+        """For `method->slot != NULL` style conditions under a fixed table:
+        index of the successor that is taken (0 true / 1 false), else None."""
+        atoms = norm_cond(cond, True)
+        if len(atoms) != 1:
+            return None
+        op, lc, rc, l, r = atoms[0]
+        lm = last_member(l)
+        if not lm or lm[0] != 'iv_fd_poll_method' or rc != '0' or op not in ('==', '!='):
+            return None
+        slots = self.prog.method_tables().get(self.method_table, {})
+        present = bool(slots.get(lm[1]))
+        truth = present if op == '!=' else not present
+        return 0 if truth else 1
+
     def _emit(self, f, ren, chain, active, depth, retvar):
         """Copy f's CFG into the output with variable renaming `ren`; returns
         (entry block id, [exit block ids]).  Return statements store into retvar."""
@@ -939,7 +977,7 @@ class Inliner:
                         return m
                     return copy.deepcopy(rep)
                 return None
-            return subst(x, r)
+            return simplify(subst(x, r))
 
         # first pass: allocate ids for f's blocks lazily
         def bid(old):
@@ -1056,7 +1094,12 @@ class Inliner:
             elif old == f.exit:
                 exits.append(cur)
             else:
-                b.succ = [bid(s) if s is not None else None for s in blk.succ]
+                succ = list(blk.succ)
+                if self.method_table is not None and b.term and len(succ) == 2 and b.term.get('cond') is not None:
+                    keep = self._fold_slot_test(b.term['cond'])
+                    if keep is not None:
+                        succ = [succ[keep]]
+                b.succ = [bid(s) if s is not None else None for s in succ]
                 # a block whose only successor is f's exit is a return edge
         # exit block of f
         return idmap[f.entry], exits
